@@ -233,7 +233,7 @@ func (m *Manager) CreateAllocation( // nolint: cyclop
 	m.log.Debugf("Listening on relay address: %s", alloc.RelayAddr)
 
 	alloc.lifetimeTimer = time.AfterFunc(lifetime, func() {
-		m.DeleteAllocation(alloc.fiveTuple)
+		m.deleteAllocation(alloc.fiveTuple, alloc)
 	})
 
 	m.lock.Lock()
@@ -259,16 +259,25 @@ func (m *Manager) CreateAllocation( // nolint: cyclop
 
 // DeleteAllocation removes an allocation.
 func (m *Manager) DeleteAllocation(fiveTuple *FiveTuple) {
+	m.deleteAllocation(fiveTuple, nil)
+}
+
+// deleteAllocation removes the allocation registered for fiveTuple. If only is not nil, nothing
+// happens unless that very allocation is still the registered one: the relay goroutine and the
+// lifetime timer of an allocation that was already deleted must not remove a newer allocation
+// that has since been created on the same 5-tuple.
+func (m *Manager) deleteAllocation(fiveTuple *FiveTuple, only *Allocation) {
 	fingerprint := fiveTuple.Fingerprint()
 
 	m.lock.Lock()
 	allocation := m.allocations[fingerprint]
-	delete(m.allocations, fingerprint)
-	m.lock.Unlock()
+	if allocation == nil || (only != nil && allocation != only) {
+		m.lock.Unlock()
 
-	if allocation == nil {
 		return
 	}
+	delete(m.allocations, fingerprint)
+	m.lock.Unlock()
 
 	m.lock.Lock()
 	if err := allocation.Close(); err != nil {
